@@ -147,7 +147,7 @@ theorem C05_result_is_the_reference_meaning {fetch : Bytes → Option Table} {q 
       (∀ a ∈ want, ∀ b ∈ want, KeyComparable keys a b) ∧
       rows = cut q.lim (sortRows keys want) ∧
       Spec.satisfies q hdr want rows = true := by
-  obtain ⟨want, keys, hm, hh, hk, hcomp, rfl⟩ := (single_table_iff hfrom hagg hgb hwhere).1 h
+  obtain ⟨want, keys, hm, hh, hk, hcomp, rfl, _⟩ := (single_table_iff hfrom hagg hgb hwhere).1 h
   exact ⟨want, keys, hm, (judgeHeader_of hh).symm, hk, hcomp, rfl,
     satisfies_single want hfrom hagg hgb hk⟩
 
@@ -157,22 +157,29 @@ that has a reference meaning `want`, whose ORDER BY keys resolve against the hea
 computes and whose key columns hold comparable values (one type, or NULL - what typed columns
 guarantee; `C05_incomparable_keys_panic` shows the hypothesis is needed) is not refused: the
 executor answers, with that header and exactly the rows `cut (sortRows keys want)`, and the judge's
-test accepts the answer.  No hypothesis on WHERE and none on the shape of the stored rows. -/
+test accepts the answer.  No hypothesis on WHERE and none on the shape of the stored rows.
+Hypotheses `hlist`, `hlim`: the select list is not empty and no written LIMIT / OFFSET is negative
+(`Spec.boundsOK`) - true of every statement the parser returns; `EvaluateSelect` takes both for
+granted and a hand-built statement without them makes it panic (`selectList[0]`, `rows[0:limit]`,
+`rows[offset:]`) although the reference meaning, which does not look at LIMIT / OFFSET, is defined:
+`C05_empty_list_and_negative_bounds_panic`. -/
 theorem C05_meaningful_query_is_answered {fetch : Bytes → Option Table} {q : Select}
     {t : TableName} {want : List Row} {keys : List (Nat × Bool)}
     (hfrom : q.from_ = some (.table t)) (hagg : hasAggr q.list = false) (hgb : q.groupBy = [])
+    (hlist : q.list ≠ []) (hlim : Spec.boundsOK q.lim = true)
     (hm : Spec.meaning fetch q = some want)
     (hk : Spec.sortKeys q (judgeHeader fetch q) = some keys)
     (hcomp : ∀ a ∈ want, ∀ b ∈ want, KeyComparable keys a b) :
     evaluateSelect fetch q = .ok (cut q.lim (sortRows keys want), judgeHeader fetch q) ∧
       Spec.satisfies q (judgeHeader fetch q) want (cut q.lim (sortRows keys want)) = true :=
-  ⟨(meaningful_single_table_answered hfrom hagg hgb hm hk hcomp).1,
+  ⟨(meaningful_single_table_answered hfrom hagg hgb hlist hlim hm hk hcomp).1,
    satisfies_single want hfrom hagg hgb hk⟩
 
 /-- **C05.answered_iff_meaningful**: the two directions as one equivalence.  For a single-table
 SELECT without aggregates and GROUP BY whose WHERE clause is not a bare non-boolean literal, the
-executor answers `(rows, hdr)` if and only if the query has a reference meaning `want`, `hdr` is the
-judge's header, the sort keys resolve to `keys` and are comparable on `want`, and
+executor answers `(rows, hdr)` if and only if the select list is not empty, no written LIMIT / OFFSET
+is negative (`Spec.boundsOK`; both hold of every parsed statement), the query has a reference meaning
+`want`, `hdr` is the judge's header, the sort keys resolve to `keys` and are comparable on `want`, and
 `rows = cut (sortRows keys want)`.  In particular a query without a meaning (unknown table, unknown
 or ambiguous column, ill-typed comparison on some row) or with an unresolvable sort key is refused
 (an error or a panic), and a refused query has no meaning or no usable sort keys. -/
@@ -180,6 +187,7 @@ theorem C05_answered_iff_meaningful {fetch : Bytes → Option Table} {q : Select
     (hfrom : q.from_ = some (.table t)) (hagg : hasAggr q.list = false) (hgb : q.groupBy = [])
     (hwhere : whereIsBoolean q = true) (rows : List Row) (hdr : List Field) :
     evaluateSelect fetch q = .ok (rows, hdr) ↔
+      q.list ≠ [] ∧ Spec.boundsOK q.lim = true ∧
       ∃ want keys, Spec.meaning fetch q = some want ∧ hdr = judgeHeader fetch q ∧
         Spec.sortKeys q hdr = some keys ∧
         (∀ a ∈ want, ∀ b ∈ want, KeyComparable keys a b) ∧
@@ -188,9 +196,10 @@ theorem C05_answered_iff_meaningful {fetch : Bytes → Option Table} {q : Select
   · intro h
     obtain ⟨want, keys, hm, hh, hk, hcomp, hrows, _⟩ :=
       C05_result_is_the_reference_meaning hfrom hagg hgb hwhere h
-    exact ⟨want, keys, hm, hh, hk, hcomp, hrows⟩
-  · rintro ⟨want, keys, hm, rfl, hk, hcomp, rfl⟩
-    exact (C05_meaningful_query_is_answered hfrom hagg hgb hm hk hcomp).1
+    obtain ⟨_, _, _, hh', _, _, _, hb⟩ := (single_table_iff hfrom hagg hgb hwhere).1 h
+    exact ⟨NoPanicP.projectColumns_ok_ne_nil hh', hb, want, keys, hm, hh, hk, hcomp, hrows⟩
+  · rintro ⟨hlist, hlim, want, keys, hm, rfl, hk, hcomp, rfl⟩
+    exact (C05_meaningful_query_is_answered hfrom hagg hgb hlist hlim hm hk hcomp).1
 
 /-- the judge's header, spelled out: `projectColumns` on the fields of the FROM clause and no rows -/
 theorem C05_judgeHeader_def (fetch : Bytes → Option Table) (q : Select) :
@@ -256,10 +265,28 @@ theorem C05_incomparable_keys_panic :
     evaluateSelect exFetchMixed exQueryMixed = .panic "sortColumns: no comparison available" := by
   decide
 
+/-- **C05.empty_list_and_negative_bounds_panic** (why `C05_meaningful_query_is_answered` has `hlist`
+and `hlim`): three hand-built statements over the table `m` - an empty select list, `SELECT a FROM m
+LIMIT -1`, `SELECT a FROM m OFFSET -1` (the parser returns none of them: it demands a select list and
+refuses a negative bound) - have a reference meaning, and `EvaluateSelect` panics on each, in the Go
+code (index out of range [0], slice bounds out of range [:-1] and [-1:]) as in the model. -/
+theorem C05_empty_list_and_negative_bounds_panic :
+    Spec.meaning exFetchMixed { list := [], from_ := some (.table ⟨[109], none⟩) } = some [[], []] ∧
+    evaluateSelect exFetchMixed { list := [], from_ := some (.table ⟨[109], none⟩) } =
+      .panic "projectColumns: selectList[0]" ∧
+    Spec.meaning exFetchMixed { exQueryMixed with orderBy := [], lim := { limitActive := true, limit := -1 } } =
+      some [[.int 1], [.str [120]]] ∧
+    evaluateSelect exFetchMixed { exQueryMixed with orderBy := [], lim := { limitActive := true, limit := -1 } } =
+      .panic "limit: rows[0:limit]" ∧
+    evaluateSelect exFetchMixed { exQueryMixed with orderBy := [], lim := { offsetActive := true, offset := -1 } } =
+      .panic "offset: rows[offset:]" := by
+  decide
+
 -- non-vacuity: `SELECT b, a FROM t WHERE a = 3 OR b = 'ab' ORDER BY b LIMIT 2 OFFSET 1` on the
 -- five-row table `t(a, b)` of `Mkdb/Proofs/Select.lean` meets every hypothesis of the three theorems
 example : exQuery.from_ = some (.table ⟨[116], none⟩) ∧ hasAggr exQuery.list = false ∧
-    exQuery.groupBy = [] ∧ whereIsBoolean exQuery = true := by decide
+    exQuery.groupBy = [] ∧ whereIsBoolean exQuery = true ∧ exQuery.list ≠ [] ∧
+    Spec.boundsOK exQuery.lim = true := by decide
 example : evaluateSelect exFetch exQuery =
     .ok ([[.str [97, 98], .int 1], [.str [98], .int 3]], [⟨[116], [98]⟩, ⟨[116], [97]⟩]) := rfl
 example : Spec.meaning exFetch exQuery =
